@@ -478,8 +478,11 @@ func runC02(p *core.Prog, r *core.Report) {
 			Need: []string{"phy-accounted", "payload-accounted", "gc-accounted", "root-accounted", "ts-accounted", "lock-accounted", "link-accounted"}})
 	}
 	// ---------------- R9 the recount uses the marking sites' notion of availability
-	r9 := r.Rule("C02.R9", "syncContainerCounters adds a size to the payload total only under inGarbage(id)==statusAvailable, the predicate of the marking sites", 1)
+	r9 := r.Rule("C02.R9", "syncContainerCounters adds a size to the payload total only under the two predicates of the marking sites: no garbage key of any kind, and inGarbage(id)==statusAvailable", 2)
 	recountAgreesWithMarking(p, r, r9)
+	// ---------------- R10 one definition of "a counted mark"
+	r10 := r.Rule("C02.R10", "the four places that move the GC counter agree on which marks are counted: either all of them count only marks of objects the shard stores, or none does", 4)
+	gcDefinitionAgrees(p, r, r10)
 	// ---------------- R7 count once on put
 	r7 := r.Rule("C02.R7", "DB.put changes counters only for an object that is not indexed yet: exists()==(false, nil), or — when exists answered not-found because of a garbage mark — an explicit index probe found nothing", 1)
 	if put := p.Func(mbDB + "put"); put == nil {
@@ -683,9 +686,10 @@ func valuePresenceTests(fn *ssa.Function, isGet func(core.Site) bool, nilValuedK
 }
 
 // recountAgreesWithMarking: the counter recount (syncContainerCounters: start-up, migration, resync) adds an object's size to
-// the payload total only when inGarbage(id) == statusAvailable — the very predicate under which the marking sites take the
-// size out (C02.R5). Another notion of "available" (e.g. one with the lock override) makes the recount disagree with the
-// incremental accounting for histories where the two notions differ. Shared by C02.R9 and C42.R6.
+// the payload total only under the two conditions under which the marking sites take the size out (C02.R5): no garbage key of
+// any kind (a redundant-copy mark counts) and inGarbage(id) == statusAvailable. Another notion of "still counted" (one with the
+// lock override, one that ignores redundant marks) makes the recount disagree with the incremental accounting. Shared by
+// C02.R9 and C42.R6.
 func recountAgreesWithMarking(p *core.Prog, r *core.Report, h *core.RuleH) {
 	fn := p.Func(mb + "syncContainerCounters")
 	if fn == nil {
@@ -699,9 +703,22 @@ func recountAgreesWithMarking(p *core.Prog, r *core.Report, h *core.RuleH) {
 	}
 	n := 0
 	for _, f := range append([]*ssa.Function{fn}, fn.AnonFuncs...) {
-		avail := core.Guard{Name: "inGarbage==statusAvailable", Match: func(s core.Site) bool { return s.Name == mb+"inGarbage" },
+		// once "no garbage key" holds, inGarbage and objectStatus answer alike (a tombstone always writes the key, the lock
+		// override needs a mark to override): either is accepted as the status test
+		avail := core.Guard{Name: "not-removed-yet", Match: func(s core.Site) bool { return s.Name == mb+"inGarbage" || s.Name == mb+"objectStatus" },
 			Comps: []core.Comp{{Result: -1, Kind: core.EqConst, Const: stAvail}}}
-		n += core.CheckEffectsFn(p, h, f, core.EffectRule{Guards: []core.Guard{avail}, Effect: func(_ *core.Prog, in ssa.Instruction) (string, bool) {
+		noKey := core.Guard{Name: "no-garbage-key", Match: func(s core.Site) bool {
+			if s.Name != "bytes.Equal" {
+				return false
+			}
+			for _, a := range s.Call.Common().Args {
+				if c, ok := a.(*ssa.Call); ok && core.CalleeName(c) == mb+"mkGarbageKey" {
+					return true
+				}
+			}
+			return false
+		}, Comps: []core.Comp{{Result: -1, Kind: core.IsFalse}}}
+		n += core.CheckEffectsFn(p, h, f, core.EffectRule{Guards: []core.Guard{noKey, avail}, Effect: func(_ *core.Prog, in ssa.Instruction) (string, bool) {
 			st, isSt := in.(*ssa.Store)
 			if !isSt || st.Val.Type().String() != "uint64" {
 				return "", false
@@ -719,5 +736,175 @@ func recountAgreesWithMarking(p *core.Prog, r *core.Report, h *core.RuleH) {
 	}
 	if n == 0 {
 		r.Fatalf("%s: the recount no longer accumulates a payload total", h.ID())
+	}
+}
+
+// gcDefinitionAgrees: the GC counter is moved at four places — the tombstone branch of put (++), markGarbageInContainer (++),
+// deleteMetadata (--) and the recount — and `objects = phy - gc` is reported from it. They must agree on whether the mark of
+// an object the shard does NOT store (absent target of a tombstone, parent known only through its parts) is counted: a mark
+// that is not counted when written but subtracted when removed (or the other way round) makes the counter drift.
+func gcDefinitionAgrees(p *core.Prog, r *core.Report, h *core.RuleH) {
+	type site struct {
+		name   string
+		fn     *ssa.Function
+		effect func(in ssa.Instruction) bool
+	}
+	isStoredTest := func(s core.Site) bool {
+		// evidence that the object is stored here: its header was read (get()==nil), its PHY marker or its id key was looked up
+		switch s.Name {
+		case mb + "get":
+			return true
+		case mb + "getObjAttribute":
+			k, ok := s.Call.Common().Args[2].(*ssa.Const)
+			return ok && k.Value != nil && strings.Contains(k.Value.ExactString(), "$Object:PHY")
+		}
+		return false
+	}
+	hoa := p.Func(mb + "handleObjectWithAssociation")
+	mg := p.Func(mb + "markGarbageInContainer")
+	del := p.Func(mb + "deleteMetadata")
+	syn := p.Func(mb + "syncContainerCounters")
+	if hoa == nil || mg == nil || del == nil || syn == nil {
+		r.Fatalf("%s: one of the four GC counter sites was not found", h.ID())
+		return
+	}
+	var gcAdd ssa.Value
+	for _, b := range hoa.Blocks {
+		for _, in := range b.Instrs {
+			if v, ok := fieldStore(in, cdiff+"GC"); ok {
+				if bo, isB := v.(*ssa.BinOp); isB && bo.Op == token.ADD {
+					gcAdd = bo.Y
+				}
+			}
+		}
+	}
+	const gdiff = "(" + mb + "ContainerGarbageDiff)."
+	sites := []site{
+		{"tombstone branch of put (gc++)", hoa, func(in ssa.Instruction) bool {
+			bo, ok := in.(*ssa.BinOp)
+			if !ok || bo.Op != token.ADD || gcAdd == nil {
+				return false
+			}
+			k, isK := intConstOf(bo.Y)
+			return isK && k == 1 && flowsTo(bo, gcAdd, 4)
+		}},
+		{"MarkGarbage (gc++)", mg, func(in ssa.Instruction) bool { _, ok := fieldStore(in, gdiff+"NewGarbage"); return ok }},
+		{"deleteMetadata (gc--)", del, func(in ssa.Instruction) bool { _, ok := fieldStore(in, cdiff+"GC"); return ok }},
+	}
+	// the recount's gc loop: a +1 on a captured counter inside a closure that iterates the garbage prefix; take every closure of
+	// syncContainerCounters whose only effect is one such increment and that does not accumulate sizes: identified by the prefix constant
+	gP, _ := p.ConstInt(mb + "metaPrefixGarbage")
+	conditional := map[string]bool{}
+	for _, st := range sites {
+		found, cond := false, true
+		for _, b := range st.fn.Blocks {
+			for _, in := range b.Instrs {
+				if !st.effect(in) {
+					continue
+				}
+				found = true
+				// conditional on storedness = control-dependent on a value derived from a stored-test call
+				dep := false
+				for _, bb := range st.fn.Blocks {
+					for _, i2 := range bb.Instrs {
+						c, isC := i2.(*ssa.Call)
+						if !isC || !isStoredTest(core.Site{Fn: st.fn, Call: c, Name: core.CalleeName(c)}) {
+							continue
+						}
+						var vals []ssa.Value
+						var grow func(v ssa.Value, d int)
+						grow = func(v ssa.Value, d int) {
+							vals = append(vals, v)
+							if d == 0 || v.Referrers() == nil {
+								return
+							}
+							for _, ref := range *v.Referrers() {
+								switch x := ref.(type) {
+								case *ssa.Extract, *ssa.BinOp, *ssa.UnOp, *ssa.Convert, *ssa.Phi:
+									grow(x.(ssa.Value), d-1)
+								}
+							}
+						}
+						grow(c, 4)
+						for _, v := range vals {
+							if branchDominates(v, true, in.Block()) || branchDominates(v, false, in.Block()) {
+								dep = true
+							}
+						}
+					}
+				}
+				if !dep {
+					cond = false
+				}
+			}
+		}
+		if !found {
+			r.Fatalf("%s: GC counter effect of %s not found", h.ID(), st.name)
+			continue
+		}
+		conditional[st.name] = cond
+	}
+	// recount
+	recCond, recFound := true, false
+	for _, b := range syn.Blocks {
+		for _, in := range b.Instrs {
+			c, ok := in.(*ssa.Call)
+			if !ok || core.CalleeName(c) != mb+"iterPrefixedIDs" {
+				continue
+			}
+			isGarbage := false
+			walkOperands(c.Call.Args[1], 6, func(x ssa.Value) {
+				if k, isK := intConstOf(x); isK && k == gP {
+					isGarbage = true
+				}
+			})
+			if ia, isSl := c.Call.Args[1].(*ssa.Slice); isSl && !isGarbage {
+				if al, isAl := ia.X.(*ssa.Alloc); isAl && al.Referrers() != nil {
+					for _, ref := range *al.Referrers() {
+						if ix, isIx := ref.(*ssa.IndexAddr); isIx && ix.Referrers() != nil {
+							for _, r2 := range *ix.Referrers() {
+								if stt, isSt := r2.(*ssa.Store); isSt {
+									if k, isK := intConstOf(stt.Val); isK && k == gP {
+										isGarbage = true
+									}
+								}
+							}
+						}
+					}
+				}
+			}
+			if !isGarbage {
+				continue
+			}
+			recFound = true
+			// the loop body is a range-over-func closure (or inline): does it consult storedness?
+			body := syn
+			if c.Referrers() != nil {
+				for _, ref := range *c.Referrers() {
+					if cc, isC := ref.(*ssa.Call); isC && len(cc.Call.Args) == 1 {
+						if mc, isMC := cc.Call.Args[0].(*ssa.MakeClosure); isMC {
+							body = mc.Fn.(*ssa.Function)
+						}
+					}
+				}
+			}
+			recCond = len(core.CallSites([]*ssa.Function{body}, isStoredTest)) > 0 && body != syn
+		}
+	}
+	if !recFound {
+		r.Fatalf("%s: the recount's loop over garbage marks was not found", h.ID())
+		return
+	}
+	conditional["recount (gc = number of ...)"] = recCond
+	// verdict: all equal
+	posOf := map[string]string{"tombstone branch of put (gc++)": p.Pos(hoa.Pos()), "MarkGarbage (gc++)": p.Pos(mg.Pos()), "deleteMetadata (gc--)": p.Pos(del.Pos()), "recount (gc = number of ...)": p.Pos(syn.Pos())}
+	ref := conditional["MarkGarbage (gc++)"]
+	for _, name := range []string{"tombstone branch of put (gc++)", "MarkGarbage (gc++)", "deleteMetadata (gc--)", "recount (gc = number of ...)"} {
+		c := conditional[name]
+		what := "counts every mark"
+		if c {
+			what = "counts only marks of objects the shard stores"
+		}
+		h.Check(c == ref, "gc-counter-definition#"+name, posOf[name], what+", like the other sites", name+" "+what+" while MarkGarbage does the opposite: a mark that is not counted when written is subtracted when removed (or the reverse), and the object count reported as phy - gc drifts")
 	}
 }
